@@ -234,6 +234,18 @@ impl DigitString {
     pub fn is_ordinal(&self) -> bool {
         self.marker.is_ordinal()
     }
+
+    /// Verification hook: project the `frozen` flag (not observable otherwise).
+    #[cfg(text2num_verif)]
+    pub fn verif_is_frozen(&self) -> bool {
+        self.frozen
+    }
+
+    /// Verification hook: project the number of leading zeroes.
+    #[cfg(text2num_verif)]
+    pub fn verif_leading_zeroes(&self) -> usize {
+        self.leading_zeroes
+    }
 }
 
 impl Deref for DigitString {
